@@ -1908,7 +1908,7 @@ handle_if_directive(const string &args, const YYLTYPE &loc) {
       strm << *ep._expr;
       warning("Ignoring invalid expression " + strm.str(), loc);
     } else {
-      expression_result = result.as_integer();
+      expression_result = result.as_boolean();
     }
   } else {
     warning("Ignoring invalid expression " + args, loc);
